@@ -9,12 +9,26 @@ package main
 // `garble` / `hist` modes have a few hundred gates and come near none of them.
 // This mode generates, per dimension
 //
+//	inputs  number of input wires (= labels drawn from the random source - 1)
 //	labels  total number of table labels (rows) of the circuit
 //	gates   number of gates
 //	wires   number of wires
 //
-// circuits whose size sits on 2^16 and 2^20 (one below / exactly / one above;
-// beyond: 2^21+1, 2^22+1 in the thorough tier), in three cheap shapes
+// circuits whose size sits on a boundary.  Boundaries are (1) 2^16 and 2^20
+// (one below / exactly / one above; beyond: 2^21+1, 2^22+1 in the thorough
+// tier) for labels / gates / wires; (2) for the INPUT WIDTH every multiple of
+// 256 up to 4096 and 2^13 (thorough: every multiple of 128 up to 8192, 2^14 ..
+// 2^17, 2^20), one below / on / one above; (3) DISCOVERED boundaries: every
+// integer constant c in [8, 2^20] that the garbling code path contains
+// (consts.go), for every dimension, sizes c-1, c, c+1, 2c-1, 2c, 2c+1 (quick
+// tier: the 2c sizes only up to 2^17).
+//
+// Input-width circuits (genWidth): EVERY input wire reaches the outputs twice -
+// through a parity chain over all inputs (XOR / XNOR: a wrong label on any one
+// input wire changes the output label) and through a pairwise reduction tree
+// with all five gate kinds - and they are evaluated on assignments that set
+// only the last / only the first / every k-th input wire, all of them, random
+// ones.  The other dimensions use three cheap shapes
 //
 //	chain   one dependency chain: gate k reads the output of gate k-1 and an
 //	        input or a recent wire
@@ -34,11 +48,18 @@ package main
 // Oracle (real code only): on EVERY wire the evaluated label is one of the
 // wire's two labels, the two differ, and it decodes to the bit of the
 // reference evaluator; Compute returns the reference bits; the Garbled value
-// has Op.rows rows at every gate (structural self-check).
+// has Op.rows rows at every gate, R has its select bit set and EVERY wire
+// pair - the input wires first - satisfies L1 = L0 xor R (structural
+// self-check: an input wire the garbler did not assign shows here whatever
+// the inputs are; theorem C01_every_input_wire_assigned).  The three
+// garblings of a case are a history on ONE circuit value: garble, release,
+// garble again - the first runs on fresh scratch, the later ones on the
+// pooled scratch of the one before (counted: ext_scratch_fresh / _reused).
 //
 // Correspondence with the Lean model (Model/GarbleBig.lean), op `c01x`:
 //
-//	full   R, rows per gate kind, total rows, running digests of all wire
+//	full   R, bytes consumed from the random source, rows per gate kind, total
+//	       rows, running digests of all wire
 //	       pairs, of all table rows (with every gate's row count) and of all
 //	       evaluated labels per input, Compute bits - reproduced by the model
 //	       with Lean AES (byte-exact through the digest)
@@ -57,12 +78,16 @@ package main
 
 import (
 	"encoding/binary"
+	"flag"
 	"fmt"
 	"math/big"
 	"math/bits"
+	"os"
+	"runtime/debug"
 	"sort"
 	"strconv"
 	"strings"
+	"unsafe"
 
 	"github.com/markkurossi/mpc/circuit"
 	"github.com/markkurossi/mpc/ot"
@@ -71,11 +96,12 @@ import (
 )
 
 type extSpec struct {
-	shape string // chain | wide | fan
-	dim   string // labels | gates | wires
+	shape string // chain | wide | fan; reach for dim inputs
+	dim   string // inputs | labels | gates | wires
 	size  int    // value of the dimension where the body of the circuit ends
 	tail  bool   // two more rounds of all five gate kinds after the boundary
 	tie   string // full | local
+	src   string // where the boundary comes from
 }
 
 func (s extSpec) String() string {
@@ -88,33 +114,83 @@ func (s extSpec) String() string {
 
 var extShapes = []string{"chain", "wide", "fan"}
 var extDims = []string{"labels", "gates", "wires"}
+var extAllDims = []string{"inputs", "labels", "gates", "wires"}
 
-// extPlan: the fixed list of cases of a tier; depends on (tier, seed) only, so
-// `-only idx` re-generates exactly one case.  fullMax: largest boundary whose
-// cases get the full (hashing) tie.
-func extPlan(tier string, seed uint64) []extSpec {
+// extPlan: the fixed list of cases of a tier; depends on (tier, seed) and on
+// the constants discovered in the source tree under test only, so `-only idx`
+// re-generates exactly one case.  Sizes up to fullMax get the full (hashing)
+// tie.  Order: input widths, discovered boundaries, 2^16 / 2^20 (small cases
+// first: only the first failures of a run are kept).
+func extPlan(tier string, seed uint64, consts []constFound) []extSpec {
 	var plan []extSpec
 	sh := func(k int) string { return extShapes[(k+int(seed%3))%3] }
 	k := 0
-	add := func(dim string, size int, tail bool, tie string) {
-		plan = append(plan, extSpec{sh(k), dim, size, tail, tie})
+	seen := map[string]bool{}
+	add := func(dim string, size int, tail bool, tie, src string) {
+		if size < 7 {
+			return
+		}
+		shape := sh(k)
+		if dim == "inputs" {
+			shape, tail = "reach", false
+		}
+		key := fmt.Sprintf("%s/%d/%v", dim, size, tail)
+		if seen[key] {
+			return
+		}
+		seen[key] = true
+		plan = append(plan, extSpec{shape, dim, size, tail, tie, src})
 		k++
+	}
+	tieFor := func(size int) string {
+		if size <= 1<<17 {
+			return "full"
+		}
+		return "local"
+	}
+	// (1) input width: around every multiple of `step` up to `top`, around powers of two above
+	step, top := 256, 4096
+	pows := []int{13}
+	if tier == "thorough" {
+		step, top = 128, 8192
+		pows = []int{14, 15, 16, 17, 20}
+	}
+	for m := step; m <= top; m += step {
+		for _, d := range []int{-1, 0, 1} {
+			add("inputs", m+d, false, "full", fmt.Sprintf("multiple of %d", step))
+		}
+	}
+	for _, p := range pows {
+		for _, d := range []int{-1, 0, 1} {
+			add("inputs", 1<<p+d, false, tieFor(1<<p+d), fmt.Sprintf("2^%d", p))
+		}
+	}
+	// (2) discovered boundaries, every dimension
+	for _, c := range consts {
+		for _, n := range boundarySizes(c.Value) {
+			if tier != "thorough" && n > c.Value+1 && n > 1<<17+1 {
+				continue // quick tier: a huge constant gets c-1, c, c+1 only (each such case costs seconds)
+			}
+			for _, dim := range extAllDims {
+				add(dim, n, k%2 == 0, tieFor(n), fmt.Sprintf("constant %d in %s", c.Value, strings.Join(c.Where, ", ")))
+			}
+		}
 	}
 	b16, b20 := 1<<16, 1<<20
 	if tier != "thorough" {
 		// 2^16: every dimension, below / on / above, full tie
-		add("labels", b16-1, true, "full")
-		add("labels", b16, false, "full")
-		add("labels", b16+1, true, "full")
-		add("gates", b16+int(seed%2), true, "full")
-		add("wires", b16+1-int(seed%2), true, "full")
+		add("labels", b16-1, true, "full", "2^16")
+		add("labels", b16, false, "full", "2^16")
+		add("labels", b16+1, true, "full", "2^16")
+		add("gates", b16+int(seed%2), true, "full", "2^16")
+		add("wires", b16+1-int(seed%2), true, "full", "2^16")
 		// 2^20 table labels: below / on / above with all kinds after the boundary
 		for _, d := range []int{-1, 0, 1} {
-			add("labels", b20+d, true, "local")
+			add("labels", b20+d, true, "local", "2^20")
 		}
-		add("labels", b20+1, false, "local")
-		add("gates", b20+1-int(seed%2), true, "local")
-		add("wires", b20+int(seed%2), true, "local")
+		add("labels", b20+1, false, "local", "2^20")
+		add("gates", b20+1-int(seed%2), true, "local", "2^20")
+		add("wires", b20+int(seed%2), true, "local", "2^20")
 		return plan
 	}
 	for _, b := range []int{b16, b20} {
@@ -124,21 +200,22 @@ func extPlan(tier string, seed uint64) []extSpec {
 		}
 		for _, dim := range extDims {
 			for _, d := range []int{-1, 0, 1} {
-				add(dim, b+d, true, tie)
-				add(dim, b+d, false, tie)
+				add(dim, b+d, true, tie, "2^16 / 2^20")
+				add(dim, b+d, false, tie, "2^16 / 2^20")
 			}
 		}
 	}
 	// the whole garbling in the model at 2^20 (one garbling each: ~2*10^6 gate hashes at ~10^5/s)
-	add("labels", b20+1, true, "full")
-	add("gates", b20, true, "full")
-	add("labels", b20-1, false, "full")
+	plan = append(plan, extSpec{sh(k), "labels", b20 + 1, true, "full", "2^20"},
+		extSpec{sh(k + 1), "gates", b20, true, "full", "2^20"},
+		extSpec{sh(k + 2), "labels", b20 - 1, false, "full", "2^20"})
+	k += 3
 	for _, s := range []int{1<<21 + 1, 3<<20 + int(seed%1000), 1<<22 + 1} {
-		add("labels", s, true, "local")
-		add("gates", s, true, "local")
+		add("labels", s, true, "local", "beyond 2^20")
+		add("gates", s, true, "local", "beyond 2^20")
 	}
-	add("labels", 1<<21, false, "local")
-	add("wires", 1<<21+1, true, "local")
+	add("labels", 1<<21, false, "local", "2^21")
+	add("wires", 1<<21+1, true, "local", "2^21")
 	return plan
 }
 
@@ -166,6 +243,9 @@ func extPattern(r *hxlib.Rng) []circuit.Operation {
 func genExt(r *hxlib.Rng, s extSpec) (*circuit.Circuit, int) {
 	n0 := 1 + r.Intn(8)
 	n1 := 1 + r.Intn(8)
+	if s.dim == "wires" && n0+n1 >= s.size {
+		n0, n1 = 1, 1 // a small discovered boundary: leave room for at least one gate
+	}
 	nin := n0 + n1
 	pat := extPattern(r)
 	width := 1 << (7 + r.Intn(4))
@@ -256,7 +336,7 @@ func genExt(r *hxlib.Rng, s extSpec) (*circuit.Circuit, int) {
 			}
 		}
 	}
-	nout := 1 + r.Intn(8)
+	nout := hxlib.MinInt(1+r.Intn(8), len(gates))
 	c := &circuit.Circuit{
 		NumGates: len(gates),
 		NumWires: nin + len(gates),
@@ -266,6 +346,123 @@ func genExt(r *hxlib.Rng, s extSpec) (*circuit.Circuit, int) {
 		Stats:    stats,
 	}
 	return c, body
+}
+
+// genWidth builds a circuit with exactly n input wires (n >= 3) in which EVERY
+// input wire reaches the outputs on two paths: a parity chain over all inputs
+// (XOR, now and then XNOR - free gates, so a wrong or unassigned label on any
+// single input wire changes the label of the chain's end) and a pairwise
+// reduction tree that uses all five gate kinds (INV as an extra gate in front
+// of one operand).  The last gates combine the chain's end with every root of
+// the tree; they are the outputs.  Every gate writes a fresh wire.
+func genWidth(r *hxlib.Rng, n int) *circuit.Circuit {
+	var n0 int
+	switch r.Intn(4) {
+	case 0:
+		n0 = 1
+	case 1:
+		n0 = n - 1
+	case 2:
+		n0 = n / 2
+	default:
+		n0 = 1 + r.Intn(n-1)
+	}
+	n1 := n - n0
+	gates := make([]circuit.Gate, 0, 3*n)
+	var stats circuit.Stats
+	emit := func(op circuit.Operation, a, b int) int {
+		out := n + len(gates)
+		g := circuit.Gate{Input0: circuit.Wire(a), Input1: circuit.Wire(b), Output: circuit.Wire(out), Op: op}
+		if op == circuit.INV {
+			g.Input1 = 0
+		}
+		gates = append(gates, g)
+		stats[op]++
+		return out
+	}
+	// parity chain over all inputs, in wire order or from the last wire down
+	down := r.Bool()
+	at := func(i int) int {
+		if down {
+			return n - 1 - i
+		}
+		return i
+	}
+	p := at(0)
+	for i := 1; i < n; i++ {
+		op := circuit.XOR
+		if r.Intn(5) == 0 {
+			op = circuit.XNOR
+		}
+		p = emit(op, p, at(i))
+	}
+	// reduction tree with all gate kinds
+	pat := extPattern(r)
+	pi := 0
+	layer := make([]int, n)
+	for i := range layer {
+		layer[i] = i
+	}
+	for len(layer) > 4 {
+		nl := make([]int, 0, len(layer)/2+1)
+		for j := 0; j+1 < len(layer); j += 2 {
+			// one gate in four follows the pattern of all kinds, the others are free (the model hashes
+			// ~10^5 gates/s and the whole garbling is reproduced there)
+			op := circuit.XOR
+			switch r.Intn(8) {
+			case 0, 1:
+				op = pat[pi%len(pat)]
+				pi++
+			case 2:
+				op = circuit.XNOR
+			}
+			a, b := layer[j], layer[j+1]
+			if op == circuit.INV {
+				if r.Bool() {
+					a = emit(circuit.INV, a, 0)
+				} else {
+					b = emit(circuit.INV, b, 0)
+				}
+				op = []circuit.Operation{circuit.AND, circuit.OR, circuit.XOR}[r.Intn(3)]
+			}
+			nl = append(nl, emit(op, a, b))
+		}
+		if len(layer)%2 == 1 {
+			nl = append(nl, layer[len(layer)-1])
+		}
+		layer = nl
+	}
+	first := len(gates)
+	for j, root := range layer {
+		emit([]circuit.Operation{circuit.XOR, circuit.AND, circuit.XNOR, circuit.OR}[(j+pi)%4], root, p)
+	}
+	emit(circuit.XOR, p, layer[0])
+	nout := len(gates) - first
+	return &circuit.Circuit{
+		NumGates: len(gates),
+		NumWires: n + len(gates),
+		Inputs:   circuit.IO{hxlib.UintIO("a", n0), hxlib.UintIO("b", n1)},
+		Outputs:  circuit.IO{hxlib.UintIO("r", nout)},
+		Gates:    gates,
+		Stats:    stats,
+	}
+}
+
+// prgTape: a long random tape written down as its seed (input widths beyond
+// 2^13: 16 bytes per input wire).  Word k (8 bytes, big endian) is the
+// splitmix64 output number k+1 of the seed; the driver generates the same
+// words (Driver/C01.lean prgLabel).
+func prgTape(seed uint64, nbytes int) []byte {
+	b := make([]byte, nbytes)
+	s := seed
+	for i := 0; i+8 <= nbytes; i += 8 {
+		s += 0x9E3779B97F4A7C15
+		z := s
+		z = (z ^ (z >> 30)) * 0xBF58476D1CE4E5B9
+		z = (z ^ (z >> 27)) * 0x94D049BB133111EB
+		binary.BigEndian.PutUint64(b[i:], z^(z>>31))
+	}
+	return b
 }
 
 // ---- running digest d' = d*M + x + 1 (mod 2^128), Model/GarbleBig.lean `dig`
@@ -316,6 +513,61 @@ func extInputs(r *hxlib.Rng, nin, n int) [][]bool {
 		xs = append(xs, x)
 	}
 	return xs
+}
+
+// widthInputs: the assignments of an input-width case - only the last input
+// wire set, only the first, every k-th (random k and phase), all, random.
+func widthInputs(r *hxlib.Rng, nin int) ([][]bool, []string) {
+	names := []string{"last_only", "first_only", "every_kth", "all_ones", "random"}
+	xs := make([][]bool, len(names))
+	for k := range xs {
+		xs[k] = make([]bool, nin)
+	}
+	xs[0][nin-1] = true
+	xs[1][0] = true
+	kk := 2 + r.Intn(15)
+	ph := r.Intn(kk)
+	for j := 0; j < nin; j++ {
+		xs[2][j] = j%kk == ph
+		xs[3][j] = true
+		xs[4][j] = r.Bool()
+	}
+	return xs, names
+}
+
+// inputSamples: the input wires whose pair is tied to the model in a `local`
+// case: the first and last ones, the ones around every multiple of a
+// discovered constant (a few multiples) and of 2^16 / 2^20, random ones.
+func inputSamples(r *hxlib.Rng, nin int, consts []constFound) []int {
+	pick := map[int]bool{}
+	around := func(i int) {
+		for d := -2; d <= 2; d++ {
+			if i+d >= 0 && i+d < nin {
+				pick[i+d] = true
+			}
+		}
+	}
+	around(0)
+	around(nin - 1)
+	bs := []int{1 << 16, 1 << 20}
+	for _, c := range consts {
+		bs = append(bs, c.Value)
+	}
+	for _, b := range bs {
+		for m := 1; m <= 4; m++ {
+			around(m * b)
+		}
+		around(nin / b * b)
+	}
+	for k := 0; k < 64; k++ {
+		pick[r.Intn(nin)] = true
+	}
+	out := make([]int, 0, len(pick))
+	for i := range pick {
+		out = append(out, i)
+	}
+	sort.Ints(out)
+	return out
 }
 
 // circLineFast is hxlib.CircLine without fmt (circuits of 10^6 gates).
@@ -391,9 +643,28 @@ func extSamples(r *hxlib.Rng, c *circuit.Circuit, labelsBefore []int, nrand int)
 }
 
 func c01ext(args []string) int {
-	cf, o := hxlib.ParseCommon("c01", args, nil)
+	repo := ""
+	cf, o := hxlib.ParseCommon("c01", args, func(fs *flag.FlagSet) {
+		fs.StringVar(&repo, "repo", "", "source tree under test (boundary discovery); default $VERIF_REPO, $MPCLDIR, /repo")
+	})
 	defer o.Close()
-	plan := extPlan(cf.Tier, cf.Seed)
+	for _, e := range []string{"VERIF_REPO", "MPCLDIR"} {
+		if repo == "" {
+			repo = os.Getenv(e)
+		}
+	}
+	if repo == "" {
+		repo = "/repo"
+	}
+	consts, cerr := discoverConstants(repo)
+	if cerr != nil {
+		// the obligation "boundary discovery ran" of checks/C01.py fails; the static plan still runs
+		o.Meta["discovered_constants_error"] = cerr.Error()
+	}
+	o.Meta["discovered_constants"] = consts
+	o.Meta["discovered_from"] = constAnchors
+	plan := extPlan(cf.Tier, cf.Seed, consts)
+	o.Meta["ext_plan_cases"] = len(plan)
 	rng := hxlib.NewRng(cf.Seed*0x9E3779B97F4A7C15 ^ 0xc01e)
 	keySizes := []int{16, 24, 32}
 	for i, spec := range plan {
@@ -402,7 +673,14 @@ func c01ext(args []string) int {
 			continue
 		}
 		rerun := fmt.Sprintf("hx-c01 ext -seed %d -n %d -only %d -tier %s", cf.Seed, cf.N, i, cf.Tier)
-		c, body := genExt(r, spec)
+		var c *circuit.Circuit
+		var body int
+		if spec.dim == "inputs" {
+			c = genWidth(r, spec.size)
+			body = len(c.Gates)
+		} else {
+			c, body = genExt(r, spec)
+		}
 		nin := c.Inputs.Size()
 		nout := c.Outputs.Size()
 		n0 := int(c.Inputs[0].Type.Bits)
@@ -422,18 +700,39 @@ func c01ext(args []string) int {
 		o.Count("ext_shape_" + spec.shape)
 		o.Count("ext_dim_" + spec.dim)
 		o.Count("ext_tie_" + spec.tie)
+		if strings.HasPrefix(spec.src, "constant ") {
+			o.Count("ext_discovered_cases")
+			o.Count("ext_discovered_dim_" + spec.dim)
+		}
+		if spec.dim == "inputs" {
+			for _, m := range []int{256, 1024} {
+				switch nin % m {
+				case m - 1:
+					o.Count(fmt.Sprintf("ext_inputs_multiple_%d_minus1", m))
+				case 0:
+					o.Count(fmt.Sprintf("ext_inputs_multiple_%d", m))
+				case 1:
+					o.Count(fmt.Sprintf("ext_inputs_multiple_%d_plus1", m))
+				}
+			}
+			if nin > 1<<13 {
+				o.Count("ext_inputs_beyond_2p13")
+			}
+		}
 		for _, b := range []int{1 << 16, 1 << 20, 1 << 21, 1 << 22} {
 			lg := bits.Len(uint(b)) - 1
 			for _, dim := range extDims {
 				v := map[string]int{"labels": total, "gates": len(c.Gates), "wires": c.NumWires}[dim]
 				bodyV := map[string]int{"labels": labelsBefore[body], "gates": body, "wires": nin + body}[dim]
-				switch {
-				case bodyV == b-1:
-					o.Count(fmt.Sprintf("ext_%s_body_2p%d_minus1", dim, lg))
-				case bodyV == b:
-					o.Count(fmt.Sprintf("ext_%s_body_2p%d", dim, lg))
-				case bodyV == b+1:
-					o.Count(fmt.Sprintf("ext_%s_body_2p%d_plus1", dim, lg))
+				if spec.dim != "inputs" {
+					switch {
+					case bodyV == b-1:
+						o.Count(fmt.Sprintf("ext_%s_body_2p%d_minus1", dim, lg))
+					case bodyV == b:
+						o.Count(fmt.Sprintf("ext_%s_body_2p%d", dim, lg))
+					case bodyV == b+1:
+						o.Count(fmt.Sprintf("ext_%s_body_2p%d_plus1", dim, lg))
+					}
 				}
 				if v > b {
 					o.Count(fmt.Sprintf("ext_%s_beyond_2p%d", dim, lg))
@@ -442,6 +741,9 @@ func c01ext(args []string) int {
 		}
 		// gate kinds after each boundary of the table slab
 		for _, b := range []int{1 << 16, 1 << 20} {
+			if total <= b {
+				continue
+			}
 			var after [5]int
 			for gi, g := range c.Gates {
 				if labelsBefore[gi+1] > b && int(g.Op) < 5 {
@@ -454,11 +756,11 @@ func c01ext(args []string) int {
 				}
 			}
 		}
-		desc := map[string]any{"case": i, "spec": spec.String(), "rerun": rerun, "num_gates": len(c.Gates),
+		desc := map[string]any{"case": i, "spec": spec.String(), "boundary": spec.src, "rerun": rerun, "num_gates": len(c.Gates),
 			"num_wires": c.NumWires, "table_labels": total, "tweaks": tweaksBefore[len(c.Gates)], "inputs": nin, "outputs": nout,
 			"stats": kindStr(map[circuit.Operation]int{circuit.AND: int(c.Stats[circuit.AND]), circuit.OR: int(c.Stats[circuit.OR]),
 				circuit.INV: int(c.Stats[circuit.INV]), circuit.XOR: int(c.Stats[circuit.XOR]), circuit.XNOR: int(c.Stats[circuit.XNOR])}),
-			"circuit": "generated by genExt (harness/cmd/c01/ext.go) from the spec and the seed; `" + rerun +
+			"circuit": "generated by genExt / genWidth (harness/cmd/c01/ext.go) from the spec and the seed; `" + rerun +
 				" -ops F` writes the whole circuit as an op line"}
 		fail := func(sig string, more map[string]any) {
 			d := map[string]any{}
@@ -476,13 +778,36 @@ func c01ext(args []string) int {
 				d["gate_text"] = fmt.Sprintf("%s%d.%d.%d", hxlib.OpLetter[g.Op], g.Input0, g.Input1, g.Output)
 				d["table_labels_before_gate"] = labelsBefore[gi]
 				d["tweaks_before_gate"] = tweaksBefore[gi]
+			} else if ok && w < nin {
+				d["input_wire"] = w
+				d["input_wires"] = nin
 			}
 			o.Fail(sig, d)
 		}
-		xs := extInputs(r, nin, 3)
+		var xs [][]bool
+		var xnames []string
+		if spec.dim == "inputs" {
+			xs, xnames = widthInputs(r, nin)
+		} else {
+			xs = extInputs(r, nin, 3)
+			xnames = []string{"random", "all_ones", "all_zero"}
+		}
 		var xstr []string
 		for _, x := range xs {
 			xstr = append(xstr, hxlib.BitsString(x))
+		}
+		// what a failure record shows of an input: the text, or for wide inputs its name and the set wires
+		xshow := func(k int) string {
+			if nin <= 256 {
+				return xstr[k]
+			}
+			set := 0
+			for _, b := range xs[k] {
+				if b {
+					set++
+				}
+			}
+			return fmt.Sprintf("%s (%d of %d input wires set; last wire %v, first wire %v)", xnames[k], set, nin, xs[k][nin-1], xs[k][0])
 		}
 		refs := make([][]bool, len(xs))
 		for k, x := range xs {
@@ -495,13 +820,13 @@ func c01ext(args []string) int {
 				defer func() {
 					if e := recover(); e != nil {
 						cbits[k] = "panic"
-						fail("c01-panic", map[string]any{"x": xstr[k], "panic": fmt.Sprint(e), "in": "Compute"})
+						fail("c01-panic", map[string]any{"x": xshow(k), "panic": fmt.Sprint(e), "in": "Compute"})
 					}
 				}()
 				outs, err := c.Compute([]*big.Int{bitsToBig(x[:n0]), bitsToBig(x[n0:])})
 				if err != nil {
 					cbits[k] = "compute-error"
-					fail("c01-compute-error", map[string]any{"x": xstr[k], "err": err.Error()})
+					fail("c01-compute-error", map[string]any{"x": xshow(k), "err": err.Error()})
 					return
 				}
 				cb := make([]bool, 0, nout)
@@ -513,7 +838,7 @@ func c01ext(args []string) int {
 				cbits[k] = hxlib.BitsString(cb)
 				for q := 0; q < nout; q++ {
 					if cb[q] != refs[k][c.NumWires-nout+q] {
-						fail("c01-compute-mismatch", map[string]any{"x": xstr[k], "out": q})
+						fail("c01-compute-mismatch", map[string]any{"x": xshow(k), "out": q})
 						break
 					}
 				}
@@ -521,21 +846,50 @@ func c01ext(args []string) int {
 		}
 		// how many garblings are tied to the model (all are judged by the oracle)
 		tied := 3
-		if spec.tie == "full" && (cf.Tier != "thorough" || spec.size > 1<<17) {
+		if spec.tie == "full" && spec.dim != "inputs" && (cf.Tier != "thorough" || spec.size > 1<<17) && spec.size > 1<<12 {
 			tied = 1
 		}
-		var samples []int
+		if spec.dim == "inputs" && nin > 1<<10+1 {
+			tied = 2 // fresh scratch and pooled scratch
+		}
+		if spec.dim == "inputs" && nin > 1<<13+1 {
+			tied = 1
+		}
+		var samples, isamples []int
 		if spec.tie == "local" {
 			samples = extSamples(r, c, labelsBefore, 400)
+			isamples = inputSamples(r, nin, consts)
 			o.CountN("ext_local_steps", tied*len(samples))
+			o.CountN("ext_local_input_wires", tied*len(isamples))
 		}
+		// the garblings of one case are a history on one circuit value; keep the collector from emptying the pool
+		// in between (small cases only: the big ones need it)
+		gcOff, gcOld := c.NumWires < 1<<18, 0
+		if gcOff {
+			gcOld = debug.SetGCPercent(-1)
+		}
+		var prevScratch unsafe.Pointer
 		var keys, tapes, smp, results []string
 		for ki := 0; ki < 3; ki++ {
 			ks := keySizes[(ki+int(cf.Seed)+i)%3]
 			key := r.Bytes(ks)
-			tape := r.Bytes(16 * (1 + nin))
+			var tape []byte
+			var tapeText string
+			if nin > 1<<13+1 {
+				ts := r.U64()
+				tape = prgTape(ts, 16*(1+nin))
+				tapeText = fmt.Sprintf("@%016x", ts)
+			} else {
+				tape = r.Bytes(16 * (1 + nin))
+				tapeText = hxlib.Hex(tape)
+			}
 			var res, sm strings.Builder
-			ctxd := map[string]any{"key": hxlib.Hex(key), "tape": hxlib.Hex(tape), "garbling": ki}
+			ctxd := map[string]any{"key": hxlib.Hex(key), "garbling": ki}
+			if len(tapeText) <= 4096 {
+				ctxd["tape"] = tapeText
+			} else {
+				ctxd["tape"] = fmt.Sprintf("%d random bytes (derived from the seed; `%s -ops F` writes them)", len(tape), rerun)
+			}
 			with := func(m map[string]any) map[string]any {
 				for k, v := range ctxd {
 					m[k] = v
@@ -550,13 +904,26 @@ func c01ext(args []string) int {
 						fail("c01-panic", with(map[string]any{"panic": fmt.Sprint(e)}))
 					}
 				}()
-				g, err := c.Garble(&hxlib.Tape{Data: tape}, key)
+				tp := &hxlib.Tape{Data: tape}
+				g, err := c.Garble(tp, key)
 				if err != nil {
 					res.WriteString("garble-error")
 					fail("c01-garble-error", with(map[string]any{"err": err.Error()}))
 					return
 				}
 				defer g.Release()
+				// history: fresh scratch or the pooled scratch of the garbling before
+				sp := unsafe.Pointer(unsafe.SliceData(g.Wires))
+				scr := "fresh"
+				if ki > 0 && sp == prevScratch {
+					scr = "reused"
+				}
+				prevScratch = sp
+				ctxd["scratch"] = scr
+				o.Count("ext_scratch_" + scr)
+				if spec.dim == "inputs" {
+					o.Count("ext_inputs_scratch_" + scr)
+				}
 				// structural self-check of the Garbled value
 				perKind := map[circuit.Operation]int{}
 				rows := 0
@@ -565,6 +932,38 @@ func c01ext(args []string) int {
 				if !structOK {
 					fail("c01-garbled-shape", with(map[string]any{"gates": len(g.Gates), "wires": len(g.Wires)}))
 				}
+				if !g.R.S() {
+					fail("c01-offset-select-bit-clear", with(map[string]any{"r": labelHex(g.R)}))
+				}
+				// every wire pair - the input wires first - is (L0, L0 xor R): C01_garbled_eq_plain,
+				// C01_every_input_wire_assigned.  Reported after the evaluations of this garbling (the first
+				// failure of a run is the replay: an evaluation on a concrete input, when there is one), and
+				// named in their records.
+				var pairFail map[string]any
+				for w := 0; w < len(g.Wires) && w < c.NumWires; w++ {
+					l := g.Wires[w].L0
+					l.Xor(g.R)
+					if !l.Equal(g.Wires[w].L1) {
+						var zero ot.Label
+						what := "L1 != L0 xor R"
+						if g.Wires[w].L0.Equal(zero) && g.Wires[w].L1.Equal(zero) {
+							what = "L0 = L1 = 0: the wire was not assigned"
+						} else if w < nin {
+							what = "L1 != L0 xor R: the pair does not belong to this garbling's R (stale or unassigned)"
+						}
+						pairFail = map[string]any{"wire": w, "what": what, "l0": labelHex(g.Wires[w].L0),
+							"l1": labelHex(g.Wires[w].L1), "r": labelHex(g.R), "tape_bytes_consumed": tp.Pos, "tape_bytes": len(tape)}
+						ctxd["garbled_value"] = fmt.Sprintf("wire %d of the Garbled value: %s (L0=%s L1=%s R=%s); %d of %d tape bytes consumed",
+							w, what, labelHex(g.Wires[w].L0), labelHex(g.Wires[w].L1), labelHex(g.R), tp.Pos, len(tape))
+						break
+					}
+				}
+				defer func() {
+					if pairFail != nil {
+						delete(ctxd, "garbled_value")
+						fail("c01-pair-not-offset", with(pairFail))
+					}
+				}()
 				for gi := 0; gi < len(g.Gates) && gi < len(c.Gates); gi++ {
 					n := len(g.Gates[gi])
 					perKind[c.Gates[gi].Op] += n
@@ -585,9 +984,9 @@ func c01ext(args []string) int {
 						wd.label(g.Wires[w].L0)
 						wd.label(g.Wires[w].L1)
 					}
-					fmt.Fprintf(&res, "r=%s;rows=%s;total=%d;wd=%s;gd=%s;e=", labelHex(g.R), kindStr(perKind), rows, wd.hex(), gd.hex())
+					fmt.Fprintf(&res, "r=%s;used=%d;rows=%s;total=%d;wd=%s;gd=%s;e=", labelHex(g.R), tp.Pos, kindStr(perKind), rows, wd.hex(), gd.hex())
 				} else {
-					fmt.Fprintf(&res, "r=%s;rows=%s;total=%d;c=%s;s=", labelHex(g.R), kindStr(perKind), rows, strings.Join(cbits, ","))
+					fmt.Fprintf(&res, "r=%s;used=%d;rows=%s;total=%d;c=%s;s=", labelHex(g.R), tp.Pos, kindStr(perKind), rows, strings.Join(cbits, ","))
 					for si, gi := range samples {
 						if gi >= len(g.Gates) {
 							continue
@@ -604,6 +1003,15 @@ func c01ext(args []string) int {
 						for _, l := range g.Gates[gi] {
 							res.WriteString(labelHex(l))
 						}
+					}
+					// sampled input wires: op side the index, result side the real pair (the model: tape slot w+1 and R)
+					for _, w := range isamples {
+						if sm.Len() > 0 {
+							res.WriteByte(',')
+							sm.WriteByte(',')
+						}
+						fmt.Fprintf(&sm, "w%d", w)
+						fmt.Fprintf(&res, "w%d:%s%s", w, labelHex(g.Wires[w].L0), labelHex(g.Wires[w].L1))
 					}
 				}
 				// the tables as they would be after transmission
@@ -626,7 +1034,7 @@ func c01ext(args []string) int {
 						if spec.tie == "full" {
 							res.WriteString("eval-error")
 						}
-						fail("c01-eval-error", with(map[string]any{"x": xstr[k], "err": err.Error()}))
+						fail("c01-eval-error", with(map[string]any{"x": xshow(k), "err": err.Error()}))
 						continue
 					}
 					if spec.tie == "full" {
@@ -636,45 +1044,70 @@ func c01ext(args []string) int {
 						}
 						fmt.Fprintf(&res, "%s:%s", ed.hex(), cbits[k])
 					}
-					// oracle on EVERY wire (all wires are defined)
+					// oracle on EVERY wire (all wires are defined); a failure record also names the first OUTPUT
+					// wire whose label does not decode to the reference bit
+					badOut := func() any {
+						for q := c.NumWires - nout; q < c.NumWires; q++ {
+							b, err := circuit.BitFromLabel(g.Wires[q], wires[q])
+							if err != nil {
+								return fmt.Sprintf("output wire %d: the evaluated label is neither of the wire's labels", q)
+							}
+							if b != refs[k][q] {
+								return fmt.Sprintf("output wire %d decodes to %v, truth-table evaluation and Compute give %v", q, b, refs[k][q])
+							}
+						}
+						return "all output wires decode correctly"
+					}
 					for w := 0; w < c.NumWires; w++ {
 						b, err := circuit.BitFromLabel(g.Wires[w], wires[w])
 						if err != nil {
-							fail("c01-unknown-label", with(map[string]any{"x": xstr[k], "wire": w}))
+							fail("c01-unknown-label", with(map[string]any{"x": xshow(k), "wire": w, "outputs_seen": badOut()}))
 							break
 						}
 						if b != refs[k][w] {
-							fail("c01-wrong-bit", with(map[string]any{"x": xstr[k], "wire": w, "got": b, "want": refs[k][w]}))
+							fail("c01-wrong-bit", with(map[string]any{"x": xshow(k), "wire": w, "got": b, "want": refs[k][w], "outputs_seen": badOut()}))
 							break
 						}
 						if g.Wires[w].L0.Equal(g.Wires[w].L1) {
-							fail("c01-equal-labels", with(map[string]any{"x": xstr[k], "wire": w}))
+							fail("c01-equal-labels", with(map[string]any{"x": xshow(k), "wire": w, "outputs_seen": badOut()}))
 							break
 						}
 					}
 					o.Count("ext_evaluations")
+					if spec.dim == "inputs" {
+						o.Count("ext_inputs_assignment_" + xnames[k])
+					}
 				}
 			}()
 			if ki < tied {
 				keys = append(keys, hxlib.Hex(key))
-				tapes = append(tapes, hxlib.Hex(tape))
+				tapes = append(tapes, tapeText)
 				results = append(results, res.String())
 				if sm.Len() == 0 {
 					sm.WriteByte('-')
 				}
 				smp = append(smp, sm.String())
 				o.Count("ext_garblings_tied_" + spec.tie)
+				if spec.dim == "inputs" {
+					o.Count("ext_inputs_garblings_tied_" + spec.tie)
+				}
 			}
 			o.Count("ext_garblings")
 			o.Count(fmt.Sprintf("ext_keysize_%d", ks))
+			if spec.dim == "inputs" {
+				o.Count(fmt.Sprintf("ext_inputs_keysize_%d", ks))
+			}
 			o.CountN("ext_gates", len(c.Gates))
 			o.CountN("ext_table_labels", total)
+		}
+		if gcOff {
+			debug.SetGCPercent(gcOld)
 		}
 		if cf.Ops != "" {
 			o.Op(fmt.Sprintf("c01x %s %s %s %s %s %s", spec.tie, strings.Join(keys, "/"), strings.Join(tapes, "/"),
 				circLineFast(c), strings.Join(xstr, ","), strings.Join(smp, "/")), strings.Join(results, "|"))
 		}
-		if i < 2 {
+		if i < 2 || (spec.dim != "inputs" && len(o.Samples) < 4) {
 			o.Sample(desc)
 		}
 	}
